@@ -481,7 +481,7 @@ fn base_strategy() -> impl Strategy<Value = (AigOwned, Vec<u32>)> {
             // gates in topological order (gate k may use gates < k), emitted shuffled
             let mut ands: Vec<(Option<u64>, u64, u64)> = vec![];
             for (k, v) in gate_vars.iter().enumerate() {
-                let mut operand = |pick: &mut dyn FnMut(u64) -> u64| -> u64 {
+                let operand = |pick: &mut dyn FnMut(u64) -> u64| -> u64 {
                     let n_leaf = ni + nl;
                     let choice = pick(10);
                     let base = if choice == 0 {
@@ -510,7 +510,7 @@ fn base_strategy() -> impl Strategy<Value = (AigOwned, Vec<u32>)> {
                 }
             }
             let n_defined = total;
-            let mut any_lit = |pick: &mut dyn FnMut(u64) -> u64| -> u64 {
+            let any_lit = |pick: &mut dyn FnMut(u64) -> u64| -> u64 {
                 if n_defined == 0 || pick(8) == 0 {
                     pick(2)
                 } else {
@@ -529,7 +529,7 @@ fn base_strategy() -> impl Strategy<Value = (AigOwned, Vec<u32>)> {
                     (Some(2 * v), next, init)
                 })
                 .collect();
-            let mut lits = |n: usize, pick: &mut dyn FnMut(u64) -> u64| -> Vec<u64> { (0..n).map(|_| any_lit(pick)).collect() };
+            let lits = |n: usize, pick: &mut dyn FnMut(u64) -> u64| -> Vec<u64> { (0..n).map(|_| any_lit(pick)).collect() };
             let outputs = lits(no, &mut pick);
             let bad = lits(nb, &mut pick);
             let constraints = lits(nc, &mut pick);
